@@ -287,20 +287,30 @@ func TestC14_MisplacedObjects(t *testing.T) {
 
 func TestC14_MultiFault(t *testing.T) {
 	c := harness.New(t, "C14", "multi-fault",
-		fmt.Sprintf("string-API templates with several simultaneous faults in one order-sensitive construct: object literals with 2..6 failing entries (different failure kinds, so the messages differ), arrays of such objects, data maps with several entries of unsupported kinds (different Go types) or several reserved/mismatching entries; each rendered %d times: same error (message and line) every time. Non-trivial: all (>= 2 distinct faults). Distinct by hash.", c14Reps))
+		fmt.Sprintf("string-API templates with several simultaneous faults in one order-sensitive construct: object literals with 2..6 failing entries (different failure kinds, so the messages differ; evaluated expressions, operators on literals of the wrong type, or both; the other entries constants), arrays of such objects, data maps with several entries of unsupported kinds (different Go types) or several reserved/mismatching entries; each rendered %d times: same error (message and line) every time. Non-trivial: all (>= 2 distinct faults). Distinct by hash.", c14Reps))
 	defer c.Finish()
 	faults := []string{"zz1", "zz2", "1 / 0", "1 + 'a'", "nope.x", "5 % 0", "'s'.nosuchfn()", "[1][0].zz", "zz3 + 1"}
+	// failing entries that are made of literals only (an operator on a literal of the wrong type)
+	constFaults := []string{"-'x'", "!1", "-true", "-nil", "!'y'", "!2.5", "-[1]", "-{a: 1}"}
 	runRapid(t, c, 700, 9000, func(rt *rapid.T) {
 		cs := detCase{Kind: "multi-fault"}
 		switch rapid.IntRange(0, 3).Draw(rt, "where") {
 		case 0, 1:
 			n := rapid.IntRange(2, 6).Draw(rt, "nFaults")
-			fs := rapid.SliceOfNDistinct(rapid.SampledFrom(faults), n, n, rapid.ID[string]).Draw(rt, "faults")
+			pool, okEntry := faults, "ok: 1"
+			switch rapid.IntRange(0, 3).Draw(rt, "faultPool") {
+			case 0:
+				// every entry a constant or an operator on a constant
+				pool, okEntry = constFaults, rapid.SampledFrom([]string{"ok: 1", "ok: 'fine'", "ok: -1", "ok: !true", "ok: nil"}).Draw(rt, "constOk")
+			case 1:
+				pool = append(append([]string{}, faults...), constFaults...)
+			}
+			fs := rapid.SliceOfNDistinct(rapid.SampledFrom(pool), n, n, rapid.ID[string]).Draw(rt, "faults")
 			var pairs []string
 			for i, f := range fs {
 				pairs = append(pairs, fmt.Sprintf("%s: %s", manyKeys[i], f))
 			}
-			pairs = append(pairs, "ok: 1")
+			pairs = append(pairs, okEntry)
 			obj := "{" + strings.Join(pairs, ", ") + "}"
 			cs.Src = rapid.SampledFrom([]string{"{{ %s }}", "{{ x = %s }}", "{{ [%s] }}", "@dump(%s)", "line1\n{{ %s.ok }}"}).Draw(rt, "form")
 			cs.Src = fmt.Sprintf(cs.Src, obj)
